@@ -538,7 +538,7 @@ class WideStore(Contract):
             return {'c': D.int('c', -2**61, 2**61), 'st': sym_status(D)}
         if cfg['route'] == 'ctor_raw_array':
             cs = [D.int('c'), D.int('c1')]
-            assume_no_int64_uint64_mix(D, cs)
+            pass  # (mix of int64- and uint64-range list elements: exact since fix F29)
             return {'c': cs[0], 'c1': cs[1], 'st': sym_status(D)}
         return {'c': D.int('c'), 'st': sym_status(D)}
 
